@@ -97,6 +97,29 @@ def _needv(k: int, mode: str):
     return pt.Len(pt.EcAdd(pt.EllipticCurve.BN254g1, pt.Bytes("a"), pt.Bytes("b")))
 
 
+def _shared_one():
+    return pt.Int(1)
+
+
+def _shared_inc(x):
+    return x + pt.Int(1)
+
+
+def _shared_tmp(x):
+    v = pt.ScratchVar(pt.TealType.uint64)
+    return pt.Seq(v.store(x), v.load() + v.load())
+
+
+def _shared_add(x, y):
+    w = pt.ScratchVar(pt.TealType.uint64)
+    return pt.Seq(w.store(x + y), w.load())
+
+
+# plain Python functions of "a helper module" that several programs decorate for themselves:
+# user code shared between programs, not a PyTeal object
+SHARED_FNS = {"one": _shared_one, "inc": _shared_inc, "tmp": _shared_tmp, "add": _shared_add}
+
+
 class Ctx:
     """Evaluation context for expressions/statements: main routine or one body evaluation."""
 
@@ -518,7 +541,9 @@ class ProgramEnv:
         if ss.get("doc"):
             impl.__doc__ = ss["doc"]
 
-        if deco == "sub":
+        if ss.get("shared_fn"):
+            w = pt.Subroutine(TT[ss["ret"]])(SHARED_FNS[ss["shared_fn"]])
+        elif deco == "sub":
             w = pt.Subroutine(TT[ss["ret"]])(impl)
         elif deco == "abi":
             w = pt.ABIReturnSubroutine(impl)
@@ -596,6 +621,16 @@ class ProgramEnv:
         version = opts["version"]
         ac = bool(opts.get("ac"))
         sm = opts.get("sm")  # None | {"annotate": bool, "pcs": bool, "concise": bool}
+        if opts.get("reuse_comp") == "mutate" and self.spec["kind"] != "router" and sm is None:
+            # ONE Compilation object per program; the caller changes its public attributes
+            comp = self.comp_objs.get("mutate")
+            if comp is None:
+                comp = self.comp_objs["mutate"] = pt.Compilation(self.ast, mode, version=version, assemble_constants=ac, optimize=optimize)
+            else:
+                comp.version = version
+                comp.assemble_constants = ac
+                comp.optimize = optimize or pt.OptimizeOptions()
+            return comp.compile().teal, None
         if opts.get("reuse_comp") and self.spec["kind"] != "router" and sm is None:
             # the same Compilation object compiled again ("compiling the same object again")
             key = repr(sorted((k, repr(v)) for k, v in opts.items() if k != "reuse_comp"))
